@@ -153,8 +153,9 @@ def orthonormal_orbitals(rng, obasis, atcoords, norb=None):
     """Coefficients (nbasis, norb) orthonormal w.r.t. the *reference* overlap."""
     s = overlap(obasis, atcoords)
     w, v = np.linalg.eigh(s)
-    x = v / np.sqrt(w)
+    keep = w > 1e-7 * w.max()          # linearly dependent functions span no extra orbital
+    x = v[:, keep] / np.sqrt(w[keep])
     n = x.shape[1]
     q, _ = np.linalg.qr(np.array([[rng.gauss(0, 1) for _ in range(n)] for _ in range(n)]))
     c = x @ q
-    return c[:, : (norb or n)]
+    return c[:, : min(norb or n, n)]
